@@ -22,7 +22,8 @@ def tuple_name_return(rec):
 def run(pid, kind, tier, seed, what):
     chk = C.Check(pid, tier, seed, level="proof")
     ok, log = C.coq_build()
-    obl = C.prop_obligations(pid) if ok else dict(theorems=[], axioms={}, ok=False, log=log)
+    files = [f"Prop_{pid}.v"] + (["Prop_C02_model.v"] if pid in ("C02", "C03") else [])
+    obl = C.prop_obligations(pid, files=files) if ok else dict(theorems=[], axioms={}, ok=False, log=log)
     if not ok or not obl["ok"]:
         chk.broken(f"theorems of Prop_{pid}.v do not check", (log + obl.get("log", ""))[-3000:])
         return chk.finish(obl)
@@ -86,7 +87,22 @@ def run(pid, kind, tier, seed, what):
             else:
                 chk.violation(what, dict(source=r["src"], config=cfg, expressions=[f"{n} = {ir_str(e)}" for n, e in r["obs"]["exprs"]][:40],
                                          gates=[(g[0], g[1]) for g in r["obs"]["gates"]][:200], qubit_map=r["obs"]["qubit_map"], **conf))
+    model_cov = {}
+    if kind == "c02":
+        # exact correspondence of the synthesiser model (gate list, qubit count, qubit map)
+        try:
+            from . import c02_model
+            mc = c02_model.collect(tier, seed)
+            model_cov = {k: v for k, v in mc.items() if k not in ("mismatches",)}
+            if mc.get("mismatches"):
+                if chk.violations:
+                    chk.notes.append(mc["mismatches"][:5])
+                else:
+                    chk.broken("synthesiser model (M_Compiler.v) and InternalCompiler produce different circuits", mc["mismatches"][:5])
+        except Exception as e:  # noqa
+            chk.broken("the synthesiser-model correspondence could not be run", repr(e)[:500])
     chk.coverage.update(
+        synthesiser_model=model_cov,
         programs=decided, evaluations=decided, distinct_nontrivial=len(nontrivial),
         disagreements_checked=sum(1 for v in chk.violations),
         rule="corpus = function strings harvested from /repo/test + operator/width templates + boolean functions given by truth table "
